@@ -114,6 +114,11 @@ class CallMixin:
     def assumed_model(self, name, ret):
         def model(eng, st, args, kwargs, node):
             eng.used_assumed.add(name)
+            if name in eng.reg.pure_calls and isinstance(ret, z3.SortRef) and not kwargs:
+                # assumed pure: an uninterpreted function of its arguments (same arguments, same result), never raises
+                targs = [eng.as_obj(a) for a in args if not isinstance(a, VObj)]
+                f = z3.Function('assumed:' + name, *[t.sort() for t in targs], ret)
+                return [(st, lift(f(*targs)))]
             out = [(st, fresh(ret, hint=name.split('.')[-1]))]
             s2 = st.fork()
             s2.trail.append(f"raise@{getattr(node, 'lineno', '?')}:{name}")
@@ -123,7 +128,8 @@ class CallMixin:
     def apply(self, fv, args, kwargs, st, node):
         """apply a callable value"""
         if any(isinstance(a, tuple) and a and a[0] == '*' for a in args) or '**' in kwargs:
-            if not (isinstance(fv, VFunc) and (fv.model or (isinstance(fv.key, tuple) and fv.key[0] == 'external'))):
+            if not ((isinstance(fv, VFunc) and (fv.model or (isinstance(fv.key, tuple) and fv.key[0] == 'external')))
+                    or (isinstance(fv, VOpaque) and 'call_opaque' in self.hooks)):
                 raise Refuse(f"*args/**kwargs of unknown length at line {node.lineno}")
         if isinstance(fv, VFunc):
             if fv.model is not None:
@@ -147,6 +153,10 @@ class CallMixin:
                         raise Refuse(f"call of undeclared external {name!r} at line {node.lineno} in {self.cur_key}")
                     self.used_externals.add(name)
                     return model(self, st, args, kwargs, node)
+                if k[0] == 'opaque_method' and 'opaque_method' in self.hooks:
+                    r = self.hooks['opaque_method'](self, fv.self_obj, fv.name, args, kwargs, st, node)
+                    if r is not None:
+                        return r
                 if k[0] == 'opaque_method':
                     # container mutators on a value nobody reads symbolically (reads of opaque values are unconstrained)
                     if fv.name in OPAQUE_MUTATORS:
@@ -333,6 +343,8 @@ class CallMixin:
             s1.assume(en(ns1, ret))
         for h in c.post_hints:
             s1.assume(h(ns1, ret))
+        if c.ghost_at_call:
+            c.ghost_at_call(self, s1, ns1, ret)      # ghost code attached to the call event (logs), not an assumption about the callee
         outs.insert(0, (s1, ret))
         return outs
 
